@@ -10,7 +10,7 @@ CHECKS = {
     # id: (category, technique, level text, level note, design ref, engine)
     'C01': ('translation_validation',
             'bounded symbolic evaluation of the emitted SQL in z3 vs a reference denotation; unsat = equal on every database within the bound; sat models replayed on real SQLite',
-            'For each catalogue program of the core family and each of its predicates, z3 proves that the SQL text emitted by the current compiler returns the reference multiset on every database with <=K rows per table (integers in [-2^20,2^20]); column names compared concretely. Program shape is enumerated (seeded catalogue), data is universally quantified by the solver.',
+            'For each catalogue program of the core family (and of the small exprs family: `else if` chains with overlapping conditions and repeated values, nested negations) and each of its predicates, z3 proves that the SQL text emitted by the current compiler returns the reference multiset on every database with <=K rows per table (integers in [-2^20,2^20]); column names compared concretely. Program shape is enumerated (seeded catalogue), data is universally quantified by the solver.',
             'Trusted: lv/sqlsem.py (SQL subset semantics, validated against real SQLite each run), lv/refsem.py (reading of the docs), z3. Outside: strings beyond constants, / and %, more than K rows, programs outside the family.',
             'DESIGN.md §2.1, §3 C01', 'sqlsmt'),
     'C02': ('translation_validation',
@@ -55,7 +55,7 @@ CHECKS = {
             'DESIGN.md §3 C10', 'z3k'),
     'C11': ('translation_validation',
             'metamorphic: short and long form of each documented shorthand (AST rewrite at every site) compiled by the real compiler, equivalence of the emitted SQL decided by z3 over a bounded symbolic database; sat models replayed on real SQLite',
-            'For each catalogue program (core, agg, sugarbase) and each applicable documented equivalence, z3 proves short form == long form on every database with <=K rows per table; a long form rejected by the compiler is a violation.',
+            'For each catalogue program (core, agg, sugarbase, exprs: else-if chains and nested negations) and each applicable documented equivalence, z3 proves short form == long form on every database with <=K rows per table; a long form rejected by the compiler is a violation.',
             'Trusted: lv/sqlsem.py, z3. Known finding KF-C11-eq-after-expression.',
             'DESIGN.md §3 C11', 'sqlsmt'),
     'C12': ('translation_validation',
